@@ -1,5 +1,5 @@
 // C20 verification master: switchable, logged uid policies.
-//   creator_file(path): answer chosen by the directory under /c20 (`pol cf <dir> <spec>`)
+//   creator_file(path): answer chosen by the directory under /c20 (`pol cf <dir> [drop+]<spec>`)
 //   valid_seteuid(ob, uid): answer chosen by (oid, uid) with `*` wildcards (`pol vs <oid> <uid> <spec>`)
 // spec:  s:<text> string | i:<n> int | arr array | err runtime error in the apply | none value 0
 // every call is logged as `VL cf <path> <spec>` / `VL vs <oid> s:<uid> <spec>` / `VL co <path> <spec>`
@@ -10,12 +10,22 @@
 #define cfpol ((mapping) REG->pol ("cf"))
 #define vspol ((mapping) REG->pol ("vs"))
 #define copol ((mapping) REG->pol ("co"))
+#define vbpol ((mapping) REG->pol ("vb"))
 
 void create () { oid = "m"; }
 
 private object connect (int port) { return new ("/vuser.c"); }
-string get_root_uid () { return "Root"; }
-string get_bb_uid () { return "Backbone"; }
+// variants (`cfg noroot` / `cfg nobb` / `cfg novb`): the plugin writes /c20/master_<flags>.c files that define these macros
+// and include this file: set_master then finds no get_root_uid() (master keeps "NONAME" / 0) / no get_bb_uid(); bind()
+// finds no valid_bind() (a NULL result refuses)
+// `pol root <name>` / `pol bb <name>` change the answers (kept in the registry object, which does not exist yet when the
+// first master is loaded): a master reloaded later (`dest,m`) announces another root / backbone uid
+#ifndef C20_NO_ROOT
+string get_root_uid () { object r; r = find_object (REG); if (r && stringp (r->uid_name ("root"))) return r->uid_name ("root"); return "Root"; }
+#endif
+#ifndef C20_NO_BB
+string get_bb_uid () { object r; r = find_object (REG); if (r && stringp (r->uid_name ("bb"))) return r->uid_name ("bb"); return "Backbone"; }
+#endif
 int valid_read (string path, mixed who, string fn) { return 1; }
 int valid_write (string path, mixed who, string fn) { return 1; }
 string error_handler (mapping m, int caught) {
@@ -30,10 +40,12 @@ string error_handler (mapping m, int caught) {
 
 void set_pol (string kind, string a, string b, string c) {
   mapping m;
+  if (kind == "root" || kind == "bb") { REG->set_uid_name (kind, a); return; }
   m = REG->pol (kind);
   if (kind == "cf") m[a] = b;
   else if (kind == "co") { if (b == "-") map_delete (m, a); else m[a] = b; }
   else if (kind == "vs") m[a + ":" + (b == "-" ? "" : b)] = c;
+  else if (kind == "vb") m[a + ":" + b] = c;
 }
 
 mixed answer (string spec) {
@@ -47,6 +59,13 @@ mixed answer (string spec) {
 mixed creator_file (string file) {
   string d, f, spec;
   if (sscanf (file, "/c20/%s/%s", d, f) != 2 || !stringp (spec = cfpol[d])) return "Root";
+  // re-entrancy (`drop+<spec>`): give_uid_to_object reads the creator's uids only after this apply returned.  When the
+  // creating object (the object running the innermost op) is this master, it drops its own euid first - an ordinary,
+  // logged op nested in the creating op (the snapshot closes the open segment)
+  if (spec[0..4] == "drop+") {
+    spec = spec[5..];
+    if (REG->cur_actor () == "m") { REG->snap (); run_op ("seteuid,i:0"); }
+  }
   VL ("cf " + file + " " + spec);
   return answer (spec);
 }
@@ -79,3 +98,20 @@ mixed valid_seteuid (object ob, string uid) {
   VL ("vs " + o + " s:" + uid + " " + spec);
   return answer (spec);
 }
+
+// valid_bind(doer, old owner, new owner) for bind(): answer chosen by (doer oid, new owner oid) with `*` wildcards
+// (`pol vb <doer> <new owner> <spec>`), logged as `VL vb <doer> <new owner> <spec>`
+#ifndef C20_NO_VB
+mixed valid_bind (object doer, object owner, object victim) {
+  string d, n, spec;
+  d = REG->oid_of (doer);
+  n = REG->oid_of (victim);
+  spec = vbpol[d + ":" + n];
+  if (!stringp (spec)) spec = vbpol[d + ":*"];
+  if (!stringp (spec)) spec = vbpol["*:" + n];
+  if (!stringp (spec)) spec = vbpol["*:*"];
+  if (!stringp (spec)) spec = "i:1";
+  VL ("vb " + d + " " + n + " " + spec);
+  return answer (spec);
+}
+#endif
